@@ -64,4 +64,10 @@ def lastValue : List RelayEv → Option Bool
 /-- out-queue: of a burst of `k` calls made while `queued` items wait, this many are accepted -/
 def burstAccepted (cap queued k : Nat) : Nat := min k (cap - queued)
 
+/-- supla_esp_gpio_relay_switch: the level handed to relay_hi for a local switch request `hi` (255 = toggle) on a relay
+    whose logical state is `isOn`; `stair` = the channel has a staircase time, `stype` = StaircaseButtonType (0 reset, 1 toggle) -/
+def switchHi (stair : Bool) (stype : Nat) (hi : Nat) (isOn : Bool) : Nat :=
+  let hi1 := if stair ∧ hi ≠ 0 ∧ stype = 0 then 1 else hi
+  if hi1 = 255 then (if isOn then 0 else 1) else hi1
+
 end SuplaVerif
